@@ -2,6 +2,7 @@
 import collections
 import json
 import os
+import re
 import sys
 import time
 import traceback
@@ -103,8 +104,10 @@ class CheckRun:
         cov.update(self.notes)
         ev = dict(property_id=self.prop, tier=self.tier, seed=int(self.seed), level=self.level, coverage=cov,
                   assumptions=self.assumptions, wall_s=round(wall, 2), violations=int(sum(self._vkeys.values())))
-        os.makedirs(EVIDENCE_DIR, exist_ok=True)
-        with open(os.path.join(EVIDENCE_DIR, self.prop + '.json'), 'w') as fh:
+        # evidence/ holds one file per LISTED property; unregistered growth checks keep theirs under out/
+        evdir = EVIDENCE_DIR if re.match(r'^C\d\d$', self.prop) else os.path.join(ROOT, 'out', 'evidence_growth')
+        os.makedirs(evdir, exist_ok=True)
+        with open(os.path.join(evdir, self.prop + '.json'), 'w') as fh:
             json.dump(ev, fh, indent=1, default=_default)
         for fid, (f, n) in self.known_hits.items():
             print('KNOWN-FINDING: property=%s %s [%s, observed %d times]' % (self.prop, f['what_fails'], fid, n))
